@@ -625,6 +625,13 @@ def _write_map_fits(hsp_map, filename, clobber=False, nocompress=False):
     c_hdr['NSIDE'] = hsp_map.nside_coverage
 
     s_hdr = _make_header(hsp_map.metadata)
+    # The keywords that describe the storage kind belong to the writer: values
+    # carried over in the metadata (e.g. of a map made like one read from a
+    # file of another kind) must not describe this map.
+    for hdr in (c_hdr, s_hdr):
+        for key in ('PRIMARY', 'WIDEMASK', 'WWIDTH', 'BITPACK'):
+            if key in hdr:
+                del hdr[key]
     s_hdr['PIXTYPE'] = 'HEALSPARSE'
     s_hdr['NSIDE'] = hsp_map._nside_sparse
     s_hdr['SENTINEL'] = hsp_map._sentinel
